@@ -30,6 +30,8 @@ func runC17(w *World, r *Report) {
 	r.Rule("nopanic", "the width-copy helper cannot index out of range; oversize and negative values take the error return", 2)
 	r.Rule("nomutate", "the builder leaves its value and mask arguments untouched and does not retain them", 2)
 	r.Rule("errprop", "errors of the lookup and of the width check reach the caller; no return is (nil, nil)", 4)
+	r.Rule("maskargs", "with an explicit width the window-mask helper is given the caller's width; only the one-argument form uses the data's bit length", 1)
+	r.Rule("errsource", "an error the builder returns comes from the registry lookup, the mask test or the width-copy helper", 2)
 	r.Rule("maskform", "the window mask helper yields exactly 'length ones starting at bit start' on every path", 1)
 	r.Rule("maskcheck", "a value with a bit outside the mask takes the error return", 1)
 	r.Rule("masksource", "the field's mask is produced only by the window-mask helper that maskform decides", 1)
@@ -299,6 +301,49 @@ func runC17(w *World, r *Report) {
 				r.OK("masksource", nb.Key, "", npos, fmt.Sprintf("every one of the %d assignments of the mask is a call of openflow13.rangeMask", nsrc), true)
 			}
 		}
+		// maskargs: what the window-mask helper is asked for. With an explicit width (two or three window
+		// arguments) the width handed over is the caller's second argument itself; only the one-argument form
+		// takes the width from the data. (A width that falls back to the data's bit length whenever it is 0
+		// turns the empty window, which must refuse every non-zero value, into a window of the data's size.)
+		if rmf := w.Funcs["openflow13.rangeMask"]; rmf != nil {
+			fs := w.Interpret(nb, "decode")
+			nCalls := 0
+			for _, c := range fs.Calls {
+				if c.Callee == nil || c.Callee.Origin() != rmf.Obj || len(c.Args) != 2 {
+					continue
+				}
+				// only calls made by the builder itself (the helper's own body is interpreted inline)
+				if w.Fset.Position(c.Pos).Filename != w.Fset.Position(nb.Decl.Pos()).Filename || c.Pos < nb.Decl.Pos() || c.Pos > nb.Decl.End() {
+					inPart := false
+					for _, p := range parts {
+						if c.Pos >= p.Decl.Pos() && c.Pos <= p.Decl.End() {
+							inPart = true
+						}
+					}
+					if !inPart {
+						continue
+					}
+				}
+				nCalls++
+				inst := fmt.Sprintf("call#%d", nCalls)
+				width := c.Args[1].valString()
+				one := strings.Contains(c.Guard, "len(arg:mask)==1") && !strings.Contains(c.Guard, "!(len(arg:mask)==1)")
+				many := strings.Contains(c.Guard, "!(len(arg:mask)==1)") || strings.Contains(c.Guard, "1<len(arg:mask)") || strings.Contains(c.Guard, "len(arg:mask)==2") || strings.Contains(c.Guard, "len(arg:mask)==3")
+				switch {
+				case width == "arg:mask[*]" && !one:
+					r.OK("maskargs", nb.Key, inst, w.Pos(c.Pos), "width = the caller's width argument", true)
+				case strings.Contains(width, "BitLen()") && !strings.Contains(width, "join(") && !strings.Contains(width, "ite(") && one:
+					r.OK("maskargs", nb.Key, inst, w.Pos(c.Pos), "one-argument form: width = bit length of the data", true)
+				case strings.Contains(width, "BitLen()") && (many || !one):
+					r.Fail(VViolation, "maskargs", nb.Key, inst, w.Pos(c.Pos), "the window-mask helper is given the width "+width+" under ["+c.Guard+"]: on a path with an explicit width argument the data's bit length can take its place, so an explicit width of 0 (the empty window) yields a window as wide as the data instead of an error")
+				default:
+					r.Fail(VUndecided, "maskargs", nb.Key, inst, w.Pos(c.Pos), "the width handed to the window-mask helper is "+width+" under ["+c.Guard+"]: neither the caller's width argument nor the one-argument form's bit length")
+				}
+			}
+			if nCalls == 0 {
+				r.Fail(VUndecided, "maskargs", nb.Key, "", npos, "no call of the window-mask helper found in the builder's interpretation")
+			}
+		}
 		if maskObj == nil || valueObj == nil {
 			r.Fail(VUndecided, "maskcheck", nb.Key, "", npos, "cannot identify the big integers that become the field's value and mask")
 		} else {
@@ -510,6 +555,109 @@ func runC17(w *World, r *Report) {
 	}
 	for _, p := range parts {
 		checkBlock(p.Decl.Body.List)
+	}
+	// (c) where an error of the builder can come from. The statement allows three reasons to refuse an input:
+	// an unknown name (the registry lookup), a value with bits outside the window (the literal error behind
+	// the mask test) and a value too wide or negative (the width-copy helper). An error taken over from any
+	// other fallible function of the module makes the builder refuse inputs for that function's reasons.
+	{
+		regVar, _ := nb.Pkg.Types.Scope().Lookup("oxxFieldHeaderMap").(*types.Var)
+		var readsRegistry func(fi *FuncInfo, depth int) bool
+		readsRegistry = func(fi *FuncInfo, depth int) bool {
+			if fi == nil || fi.Decl.Body == nil || depth > 3 {
+				return false
+			}
+			hit := false
+			ast.Inspect(fi.Decl.Body, func(n ast.Node) bool {
+				switch x := n.(type) {
+				case *ast.Ident:
+					if regVar != nil && fi.Pkg.TypesInfo.Uses[x] == regVar {
+						hit = true
+					}
+				case *ast.CallExpr:
+					if fnc, _ := typeutil.Callee(fi.Pkg.TypesInfo, x).(*types.Func); fnc != nil {
+						if g := w.FuncOf(fnc.Origin()); g != nil && g != fi && g.Pkg == fi.Pkg && readsRegistry(g, depth+1) {
+							hit = true
+						}
+					}
+				}
+				return !hit
+			})
+			return hit
+		}
+		var sourceOK func(fi *FuncInfo, depth int) (bool, string)
+		calleeOK := func(fnc *types.Func, depth int) (bool, string) {
+			g := w.FuncOf(fnc.Origin())
+			if g == nil {
+				return true, "" // outside the module: not a carrier of this property's cases
+			}
+			if helpers[g] || isPart[fnc.Origin()] || readsRegistry(g, 0) {
+				return true, ""
+			}
+			if g.Pkg == nb.Pkg && g.Recv == nil && depth < 3 {
+				return sourceOK(g, depth+1)
+			}
+			return false, g.Key
+		}
+		sourceOK = func(fi *FuncInfo, depth int) (bool, string) {
+			inf := fi.Pkg.TypesInfo
+			ok, why := true, ""
+			ast.Inspect(fi.Decl.Body, func(n ast.Node) bool {
+				as, isAs := n.(*ast.AssignStmt)
+				if !isAs || len(as.Rhs) != 1 {
+					return true
+				}
+				call, isCall := unparen(as.Rhs[0]).(*ast.CallExpr)
+				if !isCall {
+					return true
+				}
+				fnc, _ := typeutil.Callee(inf, call).(*types.Func)
+				if fnc == nil || !returnsError(fnc) {
+					return true
+				}
+				if id, isID := unparen(as.Lhs[len(as.Lhs)-1]).(*ast.Ident); !isID || id.Name == "_" {
+					return true
+				}
+				if o, y := calleeOK(fnc, depth); !o {
+					ok, why = false, y
+				}
+				return true
+			})
+			return ok, why
+		}
+		seenCallee := map[string]bool{}
+		inspectParts(func(n ast.Node) bool {
+			var call *ast.CallExpr
+			switch x := n.(type) {
+			case *ast.AssignStmt:
+				if len(x.Rhs) == 1 {
+					call, _ = unparen(x.Rhs[0]).(*ast.CallExpr)
+					if call != nil {
+						if id, isID := unparen(x.Lhs[len(x.Lhs)-1]).(*ast.Ident); !isID || id.Name == "_" {
+							call = nil
+						}
+					}
+				}
+			}
+			if call == nil {
+				return true
+			}
+			fnc, _ := typeutil.Callee(info, call).(*types.Func)
+			if fnc == nil || !returnsError(fnc) || w.FuncOf(fnc.Origin()) == nil {
+				return true
+			}
+			name := fnc.Name()
+			if seenCallee[name] {
+				return true
+			}
+			seenCallee[name] = true
+			if ok, why := calleeOK(fnc, 0); ok {
+				r.OK("errsource", nb.Key, "call:"+name, w.Pos(call.Pos()), "its error is one of the builder's own: the registry lookup, the width-copy helper, or a helper of the builder whose errors come from those", true)
+			} else {
+				r.Fail(VViolation, "errsource", nb.Key, "call:"+name, w.Pos(call.Pos()), "the builder returns the error of "+why+", which is neither the registry lookup nor the width check: inputs that are representable in the field are refused for that function's reasons")
+			}
+			return true
+		})
 	}
 	r.Stats["fallible_calls_in_builder"] = nFallible
 	r.Stats["returns_in_builder"] = nRet
